@@ -6,6 +6,7 @@ Tree == {
   A("M:pk.sub", "mod", "M:pk.sub.mod", "module"),
   A("M:pk", "sib", "M:pk.sib", "module"), A("M:pk.sib", "mod", "M:pk.sib.mod", "module"), A("M:pk.sib.mod", "fn", "fn6", "fn"),   \* a sibling with the same leaf name
   A("M:pk.mod", "fn", "fn", "fn"), A("M:pk.mod", "Cls", "Cls", "cls"), A("Cls", "meth", "meth", "method"), A("Cls", "Inner", "Inner", "cls"),
+  A("Inner", "im", "im", "method"),                          \* a method of a nested class
   A("M:pk.sub.mod", "fn", "fn5", "fn"),
   A("M:pk.alias", "fn", "fn", "fn") }                         \* the same function object under a second module path
 Mods == (<<"pk">> :> "M:pk") @@ (<<"pk","mod">> :> "M:pk.mod") @@ (<<"pk","sub">> :> "M:pk.sub")
@@ -13,8 +14,10 @@ Mods == (<<"pk">> :> "M:pk") @@ (<<"pk","mod">> :> "M:pk.mod") @@ (<<"pk","sub">
         @@ (<<"pk","sib">> :> "M:pk.sib") @@ (<<"pk","sib","mod">> :> "M:pk.sib.mod")
 Extra == (<<"pk","alias">> :> {<<"pk","mod">>})
 Imp(form, module, alias) == [t |-> "import", form |-> form, module |-> module, alias |-> alias]
-Bnd(sel, param, val) == [t |-> "bind", sel |-> sel, param |-> param, val |-> val, ref |-> <<>>]
-BndRef(sel, param, ref) == [t |-> "bind", sel |-> sel, param |-> param, val |-> "@", ref |-> ref]
+Bnd(sel, param, val) == [t |-> "bind", scope |-> "", sel |-> sel, param |-> param, val |-> val, ref |-> <<>>, rscope |-> ""]
+BndS(sc, sel, param, val) == [Bnd(sel, param, val) EXCEPT !.scope = sc]
+BndRef(sel, param, ref) == [t |-> "bind", scope |-> "", sel |-> sel, param |-> param, val |-> "@", ref |-> ref, rscope |-> ""]
+BndRefS(sel, param, ref, rsc) == [BndRef(sel, param, ref) EXCEPT !.rscope = rsc]
 DynSkips == { [mode |-> "false", names |-> {}], [mode |-> "true", names |-> {}],
               [mode |-> "list", names |-> {<<"zz","fn">>, <<"pk","mod","nope">>}] }
 Tpl == {
@@ -27,11 +30,20 @@ Tpl == {
   Bnd(<<"pk","sub","mod","fn">>, "x", "5"), Bnd(<<"zz","fn">>, "x", "1"), Bnd(<<"pk","mod","nope">>, "x", "1"),
   BndRef(<<"pk","mod","fn">>, "y", <<"pk","mod","Cls">>), BndRef(<<"m","fn">>, "y", <<"m","Cls">>),
   BndRef(<<"pk","mod","fn">>, "y", <<"zz","fn">>), Bnd(<<"pk","sub","mod","nope">>, "x", "1"),
+  \* scoped bindings and scoped references; a nested class, its method, a reference to it
+  BndS("sc", <<"pk","mod","Cls">>, "x", "7"), BndRefS(<<"pk","mod","fn">>, "y", <<"pk","mod","Cls">>, "sc"),
+  Bnd(<<"pk","mod","Cls","Inner","im">>, "x", "4"), BndRef(<<"pk","mod","fn">>, "y", <<"pk","mod","Cls","Inner">>),
   [t |-> "enable"] }
 \* the sibling family: plain imports of modules that share package prefixes and leaf names, every order
 TplSib == { Imp("plain", <<"pk","sub","mod">>, ""), Imp("plain", <<"pk","sib","mod">>, ""), Imp("plain", <<"pk","mod">>, ""),
   Bnd(<<"pk","sub","mod","fn">>, "x", "5"), Bnd(<<"pk","sib","mod","fn">>, "x", "6"), Bnd(<<"pk","mod","fn">>, "x", "1"),
   Bnd(<<"pk","mod","Cls","meth">>, "x", "2") }
+\* the method family: references (plain, scoped, to a nested class) made before / after methods of the class are configured
+TplMeth == { Imp("plain", <<"pk","mod">>, ""),
+  BndRef(<<"pk","mod","fn">>, "y", <<"pk","mod","Cls">>), BndRefS(<<"pk","mod","fn">>, "y", <<"pk","mod","Cls">>, "sc"),
+  BndRef(<<"pk","mod","fn">>, "y", <<"pk","mod","Cls","Inner">>),
+  Bnd(<<"pk","mod","Cls">>, "x", "1"), BndS("sc", <<"pk","mod","Cls">>, "x", "7"), Bnd(<<"pk","mod","Cls","meth">>, "x", "2"),
+  Bnd(<<"pk","mod","Cls","Inner">>, "x", "3"), Bnd(<<"pk","mod","Cls","Inner","im">>, "x", "4") }
 \* the re-binding family: one name bound by two import statements of one file to different modules (the later wins)
 TplRebind == { Imp("from", <<"pk","mod">>, ""), Imp("from", <<"pk","sub","mod">>, ""), Imp("as", <<"pk","mod">>, "m"), Imp("as", <<"pk","sub","mod">>, "m"),
   Bnd(<<"mod","fn">>, "x", "3"), Bnd(<<"m","fn">>, "x", "2") }
